@@ -198,8 +198,41 @@ def run(tier, t0):
                     other += [r for r in facts if r[0] != 'switch' and not ('base_address' in ' '.join(show(x) if isinstance(x, tuple) else str(x) for x in r))]
                     if not needed or other:
                         res.violation('C11.5', 'C11.5|fill|source-file', f, t.get('line'), 'set_source_file is guarded by more than "source location found and its file id known": %s' % conds[:300])
+    # C11.6 PUBLIC cut-off: the nearest PUBLIC is used exactly when there is no FUNC starting at or after it and at or
+    # before addr, i.e. it is dropped iff a previous FUNC exists with public.address <= prev_func.address
+    res.rule('C11.6', 0, floor=3, note='PUBLIC fallback is reported iff no previous FUNC starts at or after it (public.address <= prev.address drops it)')
+    if f is not None:
+        exq = PathExplorer(f, keep=lambda cnd: any(k in show(cnd) for k in ('public', 'prev_func', 'binary_search')))
+        exq.run()
+        pub_sets = [(b, t) for b, t in f.calls() if f.callee_decl(t).endswith('FrameSymbolizer::set_function') and 'public' in show(f.operand_tree(t['args'][1]))]
+        if len(pub_sets) != 1:
+            res.error('C11.6', 'expected one set_function(public ..) in fill_symbol, found %d' % len(pub_sets))
+        for b, t in pub_sets:
+            for facts, env in exq.states.get(b, ()):
+                res.rule('C11.6', 1)
+                fs_ = dict((show(cc), v) for cc, v in facts)
+                prev = fs_.get('(discr prev_func)')
+                cmp_ = {k: v for k, v in fs_.items() if 'public' in k and 'address' in k and not k.startswith('(discr')}
+                if prev == 1:
+                    if cmp_ != {'(Le public.address prev_func.1.address)': False}:
+                        res.violation('C11.6', 'C11.6|cutoff', f, t.get('line'), 'with a previous FUNC the PUBLIC is used under %s; documented: only when not (public.address <= prev_func.address)' % (cmp_ or 'no comparison'))
+                elif prev is None:
+                    res.violation('C11.6', 'C11.6|no-prev-test', f, t.get('line'), 'the PUBLIC is used on a path that never looked for a previous FUNC: %s' % sorted(fs_)[:3])
+                elif cmp_:
+                    res.violation('C11.6', 'C11.6|cutoff-without-prev', f, t.get('line'), 'without a previous FUNC the PUBLIC is still subject to %s' % cmp_)
+        # the previous FUNC is the last one starting at or before addr: binary_search_by_key(addr, start).err() - 1
+        pf = [l for l in range(len(f.locals)) if f.local_name(l) == 'prev_func']
+        res.rule('C11.6', 1)
+        okp = False
+        for l in pf:
+            sd = f.single_def(l)
+            if sd is not None and sd['kind'] == 'call':
+                e = show(f.expand(f.call_tree(sd['term'])))
+                okp = okp or ('binary_search_by_key' in e and 'Result::err' in e and 'checked_sub' not in e.split('Option::and_then')[0] and e.count('Option::and_then') == 2 and 'ranges_values' in e)
+        if not okp:
+            res.violation('C11.6', 'C11.6|prev_func', f, f.line, 'prev_func is not functions.ranges_values().binary_search_by_key(&addr, start).err().and_then(idx - 1).and_then(get)')
     res.assumptions += ['slice::binary_search_by_key and RangeMap::get are correct on sorted / non-overlapping data (std, range-map)',
                         'that the right record is found for every record set is a property of the searches over data, not decided here']
-    return harness.finish(res, tier, t0, distinct=6, explanation=(
+    return harness.finish(res, tier, t0, distinct=7, explanation=(
         'Narrow structural claim: the three searches of symbolication run on data sorted by the very key they search (sort dominates the store; field order of the derived Ord), the inlinee candidate is re-checked for depth and coverage, '
         'the module base is never subtracted from a smaller address, reported bases are the looked-up record\'s address plus the module base, the PUBLIC fallback is a reverse scan for address <= addr, and inline frames are reversed exactly once after symbolication.'))
